@@ -63,7 +63,9 @@ SUPPORTED_MEMORY_WIDTHS: frozenset[int] = frozenset({8, 16, 32, 64})
 
 
 _LZMA_FORMAT = lzma.FORMAT_RAW
-_LZMA_DECOMPRESSION_FILTERS: List[Dict[str, int]] = [{"id": lzma.FILTER_LZMA2}]
+# a raw LZMA2 stream doesn't record its dictionary size, and the decoder's default (8MiB) is smaller than the
+#  dictionaries of presets 7-9 (16/32/64MiB): decode with the largest one a preset can have used.
+_LZMA_DECOMPRESSION_FILTERS: List[Dict[str, int]] = [{"id": lzma.FILTER_LZMA2, "dict_size": 1 << 26}]
 
 
 def _lzma_compression_filters(dw: int, preset: int) -> List[Dict[str, int]]:
